@@ -661,6 +661,11 @@ func (x *c12) sideSyn(fn *ssa.Function, enc bool) {
 	if !ok {
 		if _, _, isOther := tupleResult(cb.Call.Value, other); isOther {
 			x.R.Fail(c12R2, mc, x.pos(cb.Pos()), "the block mode runs in the wrong direction")
+		} else if g := loadedGlobal(cb.Call.Value); g != nil {
+			// observed: CryptBlocks runs on an object held in a package-level variable. A CBC
+			// block mode carries its chaining value from one CryptBlocks call to the next, so the
+			// second call of this function starts from the last ciphertext block of the first.
+			x.R.Fail(c12R2, mc, x.pos(cb.Pos()), "the block mode is the package-level variable "+g.Name()+", shared by every call: its CBC chaining value is carried over from the previous call (and two concurrent calls race on it)")
 		} else {
 			x.R.Fail(c12R2, mc, x.pos(cb.Pos()), "the block mode "+flow.Expr(cb.Call.Value)+" is not "+modeName+"(…) built in this function")
 		}
@@ -861,4 +866,27 @@ func (x *c12) blockGuard(fn *ssa.Function, call *ssa.Call, src ssa.Value) bool {
 		}
 	}
 	return false
+}
+
+// loadedGlobal: v is a load of a package-level variable (possibly through a
+// type assertion / change of interface).
+func loadedGlobal(v ssa.Value) *ssa.Global {
+	for d := 0; d < 4; d++ {
+		switch x := v.(type) {
+		case *ssa.UnOp:
+			if g, ok := x.X.(*ssa.Global); ok {
+				return g
+			}
+			return nil
+		case *ssa.ChangeInterface:
+			v = x.X
+		case *ssa.TypeAssert:
+			v = x.X
+		case *ssa.MakeInterface:
+			v = x.X
+		default:
+			return nil
+		}
+	}
+	return nil
 }
